@@ -176,6 +176,8 @@ def _by_arithmetic(d, how):
 
     name = getattr(getattr(d, "scale", None), "name", None)
     if name not in ("TAI", "TT", "GPS", "UTC") or not hasattr(d, "_s"):
+        # (UT1 / TDB: the library keeps such readings through a float day count, arithmetic costs 1-2 us there,
+        # which no listed property forbids)
         return d
     if how == "arith-day":
         sod_us = int(round(d._s * 1e6))
